@@ -65,6 +65,11 @@ class C14(Prop):
             # current member that carries the value, and nothing when no member carries it
             for (oid, ck, key, v), got in looks2.items():
                 o = snap.byid[oid]
+                if o.get(".NS") not in ("DEFAULT", "EDIF"):
+                    # the reserved '.NS' entry of this scope (or of the tree it was built in) was deleted or overwritten
+                    # by an earlier event: no policy guards its names, siblings may share one, and which of them an exact
+                    # lookup answers is the open first-of-duplicates finding - nothing this refused call did
+                    continue
                 acc = [a for c2, a, cls, g in SCOPES[kind_of(o)] if c2 == ck][0]
                 kids = [c for c in getattr(o, acc) if isinstance(c.get(key), str)]
                 exact = [c for c in kids if c[key] == v]
